@@ -1,10 +1,15 @@
 CONSTANTS
-  MainAlpha = {"T","U","S","K","W","F","V","C","X3"}
-  ChildAlpha = {"T","U","S","K","C"}
+  MainAlpha = {"T","S","K","W","F","V","C","X3"}
+  ChildAlpha = {"T","S","K","C"}
   MaxMain = 2
   MaxChild = 1
   MaxSpawn = 2
   MaxT = 2
   MaxTotal = 3
-INIT Init
-NEXT Next
+  EsrchFatal = FALSE
+  ChildSigsysIgnored = FALSE
+  AnyDecision = FALSE
+SPECIFICATION Spec
+VIEW MCView
+INVARIANTS TypeOK Enforced TruthfulResult FinishedAllDead NeverRunnerError EnforcedFilterKill
+CHECK_DEADLOCK TRUE
